@@ -120,6 +120,9 @@ func main() {
 		}
 		g := c.cfgOf(&FuncInfo{Pkg: p, Decl: fd}, fd.Body)
 		fmt.Println(g.g.Format(c.Fset))
+	case "dump-panics":
+		c := NewCtx(repoDir())
+		c.dumpPanicSources()
 	case "manifest":
 		os.Exit(cmdManifest())
 	case "selftest":
